@@ -503,6 +503,68 @@ func checkC10(c *Ctx) {
 	if cl := c.fn("C10.6", lib, "RegistrationManager", "Cleanup"); cl != nil {
 		r.Check(len(callsIn(cl, shortIs("clearDetector"))) == 1, "C10.6", "Cleanup calls clearDetector", cl.Pos(), fnName(cl), "1 call", "Cleanup no longer sends the clear request")
 	}
+	// ---- C10.10 the clear request belongs to shutdown and is the last word: (a) nothing but main's deferred Cleanup
+	// sends it (a clear while registrations stay tracked leaves the station accepting sessions the detector no longer
+	// diverts); (b) the ingest pipeline returns only after its workers returned, so no New can follow the Clear
+	r.Rule("C10.10", "the clear request is sent only by main's deferred Cleanup, after the ingest workers have returned", 2)
+	{
+		nSites := 0
+		for _, f := range c.P.RepoFuncs() {
+			for _, ff := range []*ssa.Function{f} {
+				eachInstr(ff, func(in ssa.Instruction) {
+					ci, ok := in.(ssa.CallInstruction)
+					if !ok {
+						return
+					}
+					sc := ci.Common().StaticCallee()
+					if sc == nil || !strings.HasSuffix(fnPkgPath(sc), "/pkg/station/lib") {
+						return
+					}
+					switch {
+					case sc.Name() == "clearDetector":
+						nSites++
+						top := ff
+						for top.Parent() != nil {
+							top = top.Parent()
+						}
+						r.Check(top.Name() == "Cleanup", "C10.10", fnName(ff)+": calls clearDetector", in.Pos(), fnName(ff), "the shutdown hook", "the detector is told to drop every session outside the shutdown hook")
+					case sc.Name() == "Cleanup" && sc.Signature.Recv() != nil && strings.HasSuffix(typeShort(sc.Signature.Recv().Type()), "lib.RegistrationManager"):
+						nSites++
+						_, isDefer := in.(*ssa.Defer)
+						r.Check(isDefer && ff.Name() == "main" && ff.Parent() == nil && strings.HasSuffix(fnPkgPath(ff), "cmd/application"), "C10.10", fnName(ff)+": calls Cleanup", in.Pos(), fnName(ff), "deferred in main",
+							"Cleanup (the detector clear) runs while the station keeps running: every announced session is dropped by the detector although its registration stays tracked and keeps being accepted for the rest of its lifetime - the detector no longer forwards what the station would accept")
+					}
+				})
+			}
+		}
+		if nSites < 2 {
+			r.Unk("C10.10", "call sites of Cleanup / clearDetector", token.NoPos, "", fmt.Sprintf("found %d", nSites))
+		}
+		if f := c.fn("C10.10", lib, "RegistrationManager", "HandleRegUpdates"); f != nil {
+			isWait := func(in ssa.Instruction) bool {
+				call, ok := in.(*ssa.Call)
+				return ok && calleeName(&call.Call) == "(*sync.WaitGroup).Wait"
+			}
+			// from the start of the first worker to any return: through wg.Wait() of this very function
+			var firstGo ssa.Instruction
+			eachInstr(f, func(in ssa.Instruction) {
+				if g, ok := in.(*ssa.Go); ok && firstGo == nil && g.Call.StaticCallee() != nil && g.Call.StaticCallee().Name() == "startIngestThread" {
+					firstGo = in
+				}
+			})
+			if firstGo == nil {
+				r.Unk("C10.10", "HandleRegUpdates: worker start", f.Pos(), fnName(f), "no go startIngestThread found")
+			} else {
+				early, w := reach(f, firstGo, isReturn, isWait, nil)
+				if early {
+					r.Bad("C10.10", "HandleRegUpdates: returns only after its workers returned", firstGo.Pos(), fnName(f),
+						"the ingest pipeline can return while a worker is still processing a registration (no wg.Wait() on that path): main then publishes the shutdown Clear, and the worker announces its registration after it - the restarted station inherits a diversion it knows nothing about", r.blockPath(f, w)...)
+				} else {
+					r.OK("C10.10", "HandleRegUpdates: returns only after its workers returned", firstGo.Pos(), "every return after the workers are started passes wg.Wait() in this function")
+				}
+			}
+		}
+	}
 }
 
 // checkClearContext (C10.6): the clear request is published at shutdown, after the station's run context was
